@@ -20,6 +20,24 @@ from checks.c48lib import hx, uh, pretty
 PROPS = ["TfelVerif.C48.Props"]
 EPS = 2.220446049250313e-16
 SITE_CLAMP = "mtest/src/GenericSolver.cxx:execute:dynamic-clamp:unset-minimal-time-step"
+SITE_TEPS = "mtest/src/GenericSolver.cxx:execute:end-tolerance:rounding-of-accumulated-sub-steps"
+
+
+def tolmag(ti, te):
+    """end tolerance relative to the magnitude of the times: what 'the requested time is reached' means
+    in double arithmetic (100 ulp of the largest time involved)"""
+    return 100 * EPS * max(abs(ti), abs(te), te - ti)
+
+
+def loop_signature(atts, ti, te, dyn, minTs):
+    """which known weakness of the time loop the attempts of the implementation exhibit (None: neither)"""
+    tol = tolmag(ti, te)
+    for k, (t, dt) in enumerate(atts):
+        if dyn and minTs < 0 and t + dt > te + 2 * tol:
+            return SITE_CLAMP
+        if k > 0 and abs(te - t) <= tol:
+            return SITE_TEPS      # te was reached up to rounding, and another attempt was made
+    return None
 
 
 # ----------------------------------------------------------------------------- generators
@@ -346,7 +364,7 @@ def solve_property(req, ans):
         return False, "normal return without any attempt"
     t = atts[-1][0] + atts[-1][1]
     te, ti = req["te"], req["ti"]
-    tol = abs(te - ti) * 100 * EPS
+    tol = tolmag(ti, te)
     if math.isnan(t) or abs(t - te) > 2 * tol:
         return False, "normal return at t=%r, requested te=%r (attempts %s)" % (t, te, atts[-4:])
     return True, ""
@@ -366,28 +384,46 @@ def cc_property(req, ans):
             if not abs(req["s1"][c] - target) < req["seps"]:
                 return False, "accepted with imposed force %d = %r, evolution %r, seps %r" % (c, req["s1"][c], target, req["seps"])
     for i in range(req["ndv"]):
+        if math.isnan(req["du"][i]) or math.isnan(req["r"][i]):
+            continue   # NaN is outside the property's quantifier: counted as an observation by the caller
         if not abs(req["du"][i]) <= req["eeps"] or not abs(req["r"][i]) <= req["seps"]:
             return False, "accepted with increment/residual %d out of tolerance" % i
     return True, ""
 
 
 def mt_property(req, ans):
-    """at every requested time each imposed component equals its evolution (within eeps / seps)"""
+    """at every requested time each imposed component equals its evolution (within eeps / seps).
+    returns (holds, why, number of components checked, site key or None)"""
     f = ans.split()
     if not f or f[0] != "end":
-        return True, "", 0
+        return True, "", 0, None
     n = req["ndv"] + sum(1 for k, _, _ in req["cons"] if k == "g")
     i = 1
+    while i < len(f) and f[i] not in ("a", "T"):
+        i += 1
     checked = 0
     seen = []
+    atts = []
     while i < len(f):
+        if f[i] == "a":
+            atts.append((uh(f[i + 1]), uh(f[i + 2])))
+            i += 3
+            continue
         if f[i] != "T":
             i += 1
             continue
         T = uh(f[i + 1])
         u = [uh(w) for w in f[i + 3:i + 3 + n]]
         s = [uh(w) for w in f[i + 4 + n:i + 4 + n + req["ndv"]]]
+        ti = req["times"][len(seen)]
         seen.append(T)
+        # the time actually reached by the solver for this requested time
+        if atts:
+            tf = atts[-1][0] + atts[-1][1]
+            if abs(tf - T) > 2 * tolmag(ti, T):
+                site = loop_signature(atts, ti, T, req["dyn"], -1.0) or "mtest/src/GenericSolver.cxx:execute"
+                return False, ("requested time %r: the time loop stopped at t=%r (attempts %s); the output printed for "
+                               "%r is the state at %r" % (T, tf, atts[-4:], T, tf)), checked, site
         for kind, c, e in req["cons"]:
             target = float_eval(e, T)
             got = u[c] if kind == "g" else s[c]
@@ -396,11 +432,13 @@ def mt_property(req, ans):
             # 4x: the convergence test is made on the Newton iterate, rounding of the evolution included
             if not abs(got - target) < 4 * tol:
                 return False, ("at the requested time %r the imposed %s component %d is %r, its evolution gives %r "
-                               "(tolerance %r)" % (T, "gradient" if kind == "g" else "force", c, got, target, tol)), checked
+                               "(tolerance %r)" % (T, "gradient" if kind == "g" else "force", c, got, target, tol)), \
+                    checked, "mtest/src/MTest.cxx:imposed-loading"
+        atts = []
         i += 4 + n + req["ndv"]
     if seen != req["times"][1:]:
-        return False, "requested times %r, reached %r" % (req["times"][1:], seen), checked
-    return True, "", checked
+        return False, "requested times %r, reached %r" % (req["times"][1:], seen), checked, "mtest/src/MTest.cxx:execute:times"
+    return True, "", checked, None
 
 
 def fe_check(req, impl, model):
@@ -481,6 +519,7 @@ def run(ck):
     disagreements = 0
     distinct = set()
     rounding_points = 0
+    nan_accepted = 0
 
     def report(key, found, what, rep):
         old = classes.get(key)
@@ -505,6 +544,8 @@ def run(ck):
             a_cmp = a.split()[0] if a else a
             distinct.add(("cc", a_cmp, len(r.get("cons", [])), r.get("ndv")))
             holds, why = cc_property(r, a) if r["kind"] != "corpus" else (True, "")
+            if a_cmp == "1" and r["kind"] != "corpus" and any(math.isnan(x) for x in r["du"][:r["ndv"]] + r["r"][:r["ndv"]]):
+                nan_accepted += 1
             if a_cmp != m or not holds:
                 disagreements += 1
                 if not holds:
@@ -515,7 +556,7 @@ def run(ck):
             continue
         if kind in ("lpi", "cst"):
             distinct.add((kind, len(r.get("pts", [])), len(r.get("sets", [])), a.split()[0] if a else ""))
-            if a != m:
+            if a != m and not (a.startswith("err") and m.startswith("err")):
                 disagreements += 1
                 holds, why = lpi_property(r, a) if r["kind"] == "lpi" else (False, "constant evolution")
                 if not holds:
@@ -542,16 +583,16 @@ def run(ck):
             holds, why = solve_property(r, a)
             if a != m or not holds:
                 disagreements += 1
-                unset = r["dyn"] and r["minTs"] < 0
-                site = SITE_CLAMP if unset else "mtest/src/GenericSolver.cxx:execute:%s" % ("dynamic" if r["dyn"] else "halving")
+                sig = loop_signature(solve_final_time(a), r["ti"], r["te"], r["dyn"], r["minTs"])
+                site = sig or "mtest/src/GenericSolver.cxx:execute:%s" % ("dynamic" if r["dyn"] else "halving")
                 rep2 = dict(rep)
                 rep2.update({k: r[k] for k in ("dyn", "mSub", "iterMax", "ppolicy", "unknowns", "minTs", "maxTs", "minF", "maxF", "ti", "te", "script")})
                 if not holds:
                     report(site, True, "GenericSolver::execute: " + why, rep2)
                 else:
-                    report(("" if unset else "corr:") + site, False,
+                    report(site if sig else "corr:" + site, False,
                            "correspondence Model.lean vs GenericSolver::execute broken (time loop: attempts differ; "
-                           "the run still ends at te or throws)", rep2)
+                           "this run still ends at te or throws)", rep2)
             continue
     # (iv) complete MTest runs on the mock behaviour
     mt_checked = 0
@@ -561,7 +602,7 @@ def run(ck):
         verdict = a.split()[0] if a else "missing"
         hist["mt:" + verdict.split(":")[0] + (":" + verdict.split(":")[1] if ":" in verdict else "")] = \
             hist.get("mt:" + verdict.split(":")[0] + (":" + verdict.split(":")[1] if ":" in verdict else ""), 0) + 1
-        holds, why, n = mt_property(r, a)
+        holds, why, n, site = mt_property(r, a)
         mt_checked += n
         mt_end += verdict == "end"
         distinct.add(("mt", r["dyn"], verdict, r["ndv"], len(r["cons"]), r["ppolicy"], r["nl"] != 0))
@@ -570,10 +611,10 @@ def run(ck):
                    {"request": r["line"], "implementation": a[:400]})
         if not holds:
             disagreements += 1
-            unset = r["dyn"]
             rep = {"request": r["line"], "request_decoded": pretty(r["line"]), "implementation": pretty(a),
-                   "times": r["times"], "constraints": [(k, c, e) for k, c, e in r["cons"]], "behaviour_script": r["script"]}
-            report(SITE_CLAMP if unset else "mtest/src/MTest.cxx:imposed-loading", True, "MTest run: " + why, rep)
+                   "times": r["times"], "constraints": [(k, c, e) for k, c, e in r["cons"]], "behaviour_script": r["script"],
+                   "dynamic_time_step_scaling": r["dyn"]}
+            report(site, True, "MTest run on the mock behaviour: " + why, rep)
     for key, (found, what, rep) in sorted(classes.items()):
         ck.violation(key, what, rep, found)
 
@@ -598,5 +639,6 @@ def run(ck):
         "histogram": hist,
         "mtest_runs_completed": mt_end, "imposed_components_checked_at_requested_times": mt_checked,
         "observation_lpi_tabulated_points_not_reproduced_bitwise_by_double_rounding": rounding_points,
+        "observation_nan_increment_or_residual_accepted_by_checkConvergence": nan_accepted,
         "samples": samples,
     })
